@@ -150,7 +150,7 @@ theorem forLoop_rel {σ τ : Type} (R : σ → τ → Prop) (body : σ → PyVal
     (h : ∀ p s x, x ∈ xs → R p s →
       match step s x with
       | .error e => body p x = .error e
-      | .ok (s', b) => ∃ p', body p x = .ok (if b then .brk p' else .next p') ∧ R p' s')
+      | .ok r => ∃ p', body p x = .ok (if r.2 = true then .brk p' else .next p') ∧ R p' r.1)
     (p : σ) (s : τ) (hps : R p s) : SimRes R (forLoop xs p body) (loopM step s xs) := by
   induction xs generalizing p s with
   | nil => exact ⟨p, rfl, hps⟩
@@ -171,6 +171,91 @@ theorem forLoop_rel {σ τ : Type} (R : σ → τ → Prop) (body : σ → PyVal
         exact ih (fun p s x hx => h p s x (List.mem_cons_of_mem _ hx)) p' s' hr
       · simp only [bind_ok, if_true]
         exact ⟨p', rfl, hr⟩
+
+/-- what follows a simulated computation: a total continuation that maps related results to related results -/
+theorem SimRes.bind {σ τ σ' τ' : Type} {R : σ → τ → Prop} {R' : σ' → τ' → Prop} {got : Except CondErr σ} {want : Except CondErr τ}
+    (h : SimRes R got want) (k : σ → Except CondErr σ') (g : τ → τ')
+    (hk : ∀ p s, R p s → ∃ d, k p = .ok d ∧ R' d (g s)) :
+    SimRes R' (PyE.bind got k) (want.map g) := by
+  cases want with
+  | error e =>
+    simp only [SimRes] at h
+    simp only [h, bind_error, SimRes, Except.map]
+  | ok s =>
+    obtain ⟨p, hp, hr⟩ := h
+    simp only [hp, bind_ok, SimRes, Except.map]
+    exact hk p s hr
+
+/-- the same, stated on whatever expression `W` the model has for "the result after the continuation" (no particular `match`) -/
+theorem SimRes.bind_cases {σ τ σ' τ' : Type} {R : σ → τ → Prop} {R' : σ' → τ' → Prop} {got : Except CondErr σ}
+    {want : Except CondErr τ} (h : SimRes R got want) (k : σ → Except CondErr σ') (W : Except CondErr τ')
+    (herr : ∀ e, want = .error e → W = .error e)
+    (hok : ∀ p s, want = .ok s → R p s → SimRes R' (k p) W) : SimRes R' (PyE.bind got k) W := by
+  cases want with
+  | error e =>
+    simp only [SimRes] at h
+    rw [h, herr e rfl]
+    simp only [bind_error, SimRes]
+  | ok s =>
+    obtain ⟨p, hp, hr⟩ := h
+    rw [hp]
+    exact hok p s rfl hr
+
+/-! ### dicts that describe a `Raw` (the results `decide` stores and returns) -/
+
+theorem slot_isNone {d p : PyVal} {o : Option (Raw × PyVal)} (h : Rbacx.Py.SlotRep d p o) : d.isNone = o.isNone := by
+  cases o with
+  | none => rw [h.1]; rfl
+  | some x => obtain ⟨r, pid⟩ := x; exact h.1.isNone_eq
+
+/-- is the value a non-empty string? -/
+def strNonEmpty (v : PyVal) : Bool := match v with | .str x => x != "" | _ => false
+
+/-- `if isinstance(rid, str) and rid:` -/
+theorem note_cond (v : PyVal) : (Rbacx.Py.pand (PyE.isInstance v ["str"]) v).truthy = strNonEmpty v := by
+  cases v <;> simp [Rbacx.Py.pand, PyE.isInstance, Rbacx.Py.isInstance, PyVal.isStr, PyVal.truthy, strNonEmpty]
+
+theorem noteRuleId_eq (s : SetSt) (r : Raw) :
+    noteRuleId s r = if strNonEmpty (por r.lastRuleId r.ruleId) = true
+      then { s with lastRuleId := por r.lastRuleId r.ruleId } else s := by
+  unfold noteRuleId Raw.rid strNonEmpty
+  cases por r.lastRuleId r.ruleId <;> simp
+
+theorem por_reason (x : String) : por (.str x) (.str "matched") = .str (if x == "" then "matched" else x) := by
+  by_cases h : x = ""
+  · subst h; rfl
+  · have : (PyVal.str x).truthy = true := by simp [PyVal.truthy, h]
+    simp [por, this, h]
+
+theorem por_list_nil (xs : List PyVal) : por (.list xs) (.list []) = .list xs := by
+  cases xs <;> rfl
+
+open Rbacx.Py in
+/-- the three ways `decide` builds its result -/
+theorem no_match_represents (l : PyVal) :
+    Represents (.dict [("decision", .str "deny"), ("reason", .str "no_match"), ("rule_id", .none), ("last_rule_id", l),
+      ("policy_id", .none), ("obligations", .list [])]) (noMatch l) := represents_encRawSet (noMatch l)
+
+open Rbacx.Py in
+theorem deny_represents (r : Raw) (pid : PyVal) :
+    Represents (.dict [("decision", .str "deny"), ("reason", .str "explicit_deny"),
+      ("rule_id", por r.lastRuleId r.ruleId), ("last_rule_id", por r.lastRuleId r.ruleId),
+      ("policy_id", pid), ("obligations", .list r.obligations)]) (denyOut r pid) :=
+  represents_encRawSet (denyOut r pid)
+
+open Rbacx.Py in
+theorem permit_represents {d : PyVal} {r : Raw} (h : Represents d r) (pid : PyVal) :
+    Represents (setItem (setItem (dictCopy d) "policy_id" pid) "reason"
+      (por ((setItem (dictCopy d) "policy_id" pid).get "reason") (.str "matched"))) (permitOut r pid) := by
+  have h2 : (setItem d "policy_id" pid).get "reason" = .str r.reason := (h.setPolicyId pid).reason
+  rw [h.copy, h2, por_reason]
+  exact (h.setPolicyId pid).setReason _
+
+open Rbacx.Py in
+theorem first_represents {d : PyVal} {r : Raw} (h : Represents d r) (pid : PyVal) :
+    Represents (setItem (dictCopy d) "policy_id" pid) { r with policyId := pid } := by
+  rw [h.copy]
+  exact h.setPolicyId pid
 
 /-! ### documents -/
 
@@ -244,6 +329,55 @@ theorem toTree_doc (n : Nat) (d : PyVal) : (toTree n d).doc = d := by
     split
     · split <;> rfl
     · rfl
+
+theorem dictTree_leaf {d : PyVal} (h : DictTree (.leaf d)) : DictDoc d := by
+  unfold DictTree at h
+  exact h
+
+theorem dictTree_node {d : PyVal} {cs : List PTree} (h : DictTree (.node d cs)) : d.isDict = true ∧ ∀ c ∈ cs, DictTree c := by
+  unfold DictTree at h
+  exact h
+
+theorem dictTree_doc {t : PTree} (h : DictTree t) : t.doc.isDict = true := by
+  cases t with
+  | leaf d => exact (dictTree_leaf h).1
+  | node d cs => exact (dictTree_node h).1
+
+/-- `policyset.get("policies") or []`, `[]` when that is not a list: the children `decide` iterates over -/
+def kidsOf (doc : PyVal) : List PyVal :=
+  match por (doc.get "policies") (.list []) with
+  | .list cs => cs
+  | _ => []
+
+theorem toTree_node (n : Nat) (doc : PyVal) (h : doc.hasKey "policies" = true) :
+    toTree (n + 1) doc = .node doc ((kidsOf doc).map (toTree n)) := by
+  unfold toTree kidsOf
+  simp only [h, if_true]
+  cases por (doc.get "policies") (.list []) <;> rfl
+
+theorem toTree_leaf (n : Nat) (doc : PyVal) (h : doc.hasKey "policies" = false) : toTree (n + 1) doc = .leaf doc := by
+  unfold toTree
+  simp [h]
+
+theorem size_kid_lt (doc c : PyVal) (h : c ∈ kidsOf doc) : c.size + 1 < doc.size := by
+  unfold kidsOf at h
+  cases hp : por (doc.get "policies") (.list []) with
+  | list cs => rw [hp] at h; exact size_child_lt doc c cs hp h
+  | _ => rw [hp] at h; simp at h
+
+/-- what `evaluate` returns has no policy id -/
+theorem evaluate_policyId (cx : CondCtx) (dflt : String) (policy : PyVal) (r : Raw) (h : evaluate cx dflt policy = .ok r) :
+    r.policyId = .none := by
+  unfold evaluate at h
+  cases h1 : lowerField (policy.get "algorithm") dflt with
+  | error e => simp [h1, Bind.bind, Except.bind] at h
+  | ok algo =>
+    cases h2 : rulesLoop cx algo {} (rulesOf policy) with
+    | error e => simp [h1, h2, Bind.bind, Except.bind, Functor.map, Except.map] at h
+    | ok s =>
+      simp only [h1, h2, Bind.bind, Except.bind, Pure.pure, Except.pure, Functor.map, Except.map, Except.ok.injEq] at h
+      rw [← h]
+      rfl
 
 /-- the child loop of the model over the trees of the children `cs` is a `loopM` over `cs` -/
 theorem childrenLoop_eq_loopM (cx : CondCtx) (interpDflt setDflt algo : String) (n : Nat) (cs : List PyVal) (s : SetSt) :
